@@ -10,7 +10,7 @@ import numpy as np
 import nixio
 
 NAMES = ["c0", "c1", "äö", "x y", "name", "c5", "c6", "c7", "c8", "c9"]
-STRS = ["", "a", "äöü", "x" * 30, "0", "b c", "日本", "zz"]
+STRS = ["", "a", "äöü", "x" * 30, "0", "b c", "日本", "zz", "e\u0301", "\u00e9", "\u212b", "\u00c5", "a ", "A"]
 TYPES = ["int64", "float64", "bool", "str", "int8", "uint16"]
 NPT = {"int64": np.int64, "float64": np.float64, "bool": np.bool_, "str": str, "int8": np.int8, "uint16": np.uint16}
 
@@ -29,7 +29,7 @@ def enc(ty, v):
     if ty == "str":
         if not isinstance(v, str):
             return -7                      # a text cell must come back as text (not bytes)
-        return STRS.index(v)
+        return STRS.index(v) if v in STRS else -8
     if ty == "float64":
         return struct.unpack("<Q", struct.pack("<d", float(v)))[0]
     return int(v)
